@@ -39,6 +39,11 @@ def run(ctx):
     r01_1(ctx, rep, roles, snd)
     r01_2(ctx, rep, roles, pm)
     r01_3(ctx, rep, roles, pm)
+    # truncation must only cut the tail: a refused key-value followed by SetMaxVersion / further members would make the
+    # receiver pass versions it never got (seed R2-C01-2)
+    from . import c07
+    c07.r07_4(ctx, rep, roles, snd)
+    ctx.report.rules[-1].id = "R01.4(R07.4)"
 
 
 def r01_1(ctx, rep, roles, snd):
